@@ -195,6 +195,10 @@ type c17Scenario struct {
 	listen []string // names of the listen addresses, in listenAddrs() order
 	conns  []c17ConnDef
 	k      int // number of external endpoints in the alphabet
+	// ineligible observation classes in the alphabet of this scenario; nil = all of c17IneligibleClasses
+	classes []string
+	// ActivationThresh values this scenario is searched with; nil = the tier's default list
+	threshs []int
 }
 
 // IPv6 remotes: A1/A2 share a /56 but not a /64; B is in the adjacent /56 (differs in bit 56 only, so it shares
@@ -233,6 +237,17 @@ func c17Scenarios(thorough bool) []c17Scenario {
 				conns: []c17ConnDef{
 					{"q1", "quic4", "1.1.1.1", 1000}, {"w1", "wt4", "1.1.1.1", 2000}, {"w2", "wt4", "2.2.2.2", 1000},
 					{"q3", "ephq4", "3.3.3.3", 1000}, {"t2", "tcp4", "2.2.2.2", 1000},
+				},
+			},
+			{
+				// five observer groups, four externals: every ranking situation of the "at most three, most-observed
+				// first" clause (3+ candidates with different counts, a fourth one with more observers than the third).
+				// The ineligible classes are exercised by the other scenarios; here only nil is kept.
+				// Searched with ActivationThresh 1 only: Addrs(2..4) rank the same states for the higher thresholds.
+				name: "v4-tcp-ranking", listen: []string{"tcp4"}, k: 4, classes: []string{c17ObsNil}, threshs: []int{1},
+				conns: []c17ConnDef{
+					{"a", "tcp4", "1.1.1.1", 1000}, {"b", "tcp4", "2.2.2.2", 1000}, {"c", "tcp4", "3.3.3.3", 1000},
+					{"d", "tcp4", "4.4.4.4", 1000}, {"e", "tcp4", "5.5.5.5", 1000},
 				},
 			},
 			{
